@@ -3,28 +3,39 @@
    slashing of bonded and unbonding stake, unsolicited transfers, index updates.          *)
 EXTENDS PropDefs, TLCExt, Json
 
-CONSTANTS Amts, Dts, SlashDiv, MaxSteps, MaxTime, EmitLen, OnlyOk
+CONSTANTS Amts, Dts, SlashDiv, MaxSteps, MaxTime, EmitLen, OnlyOk, Features, RewardAmts
 
-FeeHalf   == <<0, 500000000, 0>>
-FeeSmall  == <<0, 5000000, 0>>
-FeeOne    == One
-FeeZero   == Zero
-ThrOne    == One
-Thr095    == <<0, 950000000, 0>>
-Rate005   == <<0, 50000000, 0>>
-RateThird == <<0, 333333333, 333333333>>
-PriceOne  == One
-Price075  == <<0, 750000000, 0>>
-
-Txs ==
-  UNION { {TxBond(u, a), TxBondSt(u, a), TxUnbondB(u, a), TxUnbondSt(u, a), TxConvertBSt(u, a), TxConvertStB(u, a)}
-          : u \in Users, a \in Amts }
-  \cup {TxWithdraw(u) : u \in Users}
-  \cup {TxCheckSlashing(CHOOSE u \in Users : TRUE)}
-  \cup {EvAdvance(dt) : dt \in Dts}
-  \cup {EvSlash(v, n) : v \in InitVals, n \in SlashDiv}
-  \cup {EvSlashUnb(v, n) : v \in InitVals, n \in SlashDiv}
-  \cup {EvDonate(u, a) : u \in Users, a \in {1}}
+U1 == CHOOSE u \in Users : TRUE
+NoExp == [k |-> "none", v |-> 0]
+TxsOf(f) ==
+  CASE f = "core" ->
+         UNION { {TxBond(u, a), TxBondSt(u, a), TxUnbondB(u, a), TxUnbondSt(u, a), TxConvertBSt(u, a), TxConvertStB(u, a)}
+                 : u \in Users, a \in Amts }
+         \cup {TxWithdraw(u) : u \in Users} \cup {TxCheckSlashing(U1)} \cup {EvAdvance(dt) : dt \in Dts}
+    [] f = "slash"    -> {EvSlash(v, n) : v \in Vals, n \in SlashDiv} \cup {EvSlashUnb(v, n) : v \in Vals, n \in SlashDiv}
+    [] f = "donate"   -> {EvDonate(u, 1) : u \in Users}
+    [] f = "transfer" -> {TxTransfer(t, u, v, a) : t \in {"bsei", "stsei"}, u \in Users, v \in Accts, a \in Amts}
+    [] f = "allow"    -> UNION { { ExecTx(u, t, [k |-> "increase_allowance", spender |-> v, amount |-> a, expires |-> NoExp], <<>>),
+                                   ExecTx(v, t, [k |-> "transfer_from", owner |-> u, recipient |-> v, amount |-> a], <<>>),
+                                   ExecTx(v, t, [k |-> "burn_from", owner |-> u, amount |-> a], <<>>),
+                                   ExecTx(v, t, [k |-> "send_from", owner |-> u, contract |-> "hub", amount |-> a, hook |-> "unbond"], <<>>) }
+                                 : t \in {"bsei", "stsei"}, u \in Users, v \in Users \ {U1}, a \in Amts }
+    [] f = "reward"   -> {EvAccrue(v, d, a) : v \in Vals, d \in {"usei", "kusd"}, a \in RewardAmts}
+                         \cup {TxUpdateGlobal} \cup {TxClaim(u) : u \in Users}
+    [] f = "rewardlab" -> {TxMint("bsei", u, a) : u \in Users, a \in Amts} \cup {EvDeliver("kusd", a) : a \in RewardAmts}
+                         \cup {TxIndexUpdate} \cup {TxClaim(u) : u \in Users}
+                         \cup {TxTransfer("bsei", u, v, a) : u \in Users, v \in Accts, a \in Amts}
+                         \cup {ExecTx("hub", "bsei", [k |-> "burn", amount |-> a], <<>>) : a \in Amts}
+    [] f = "tokinit"  -> {[k |-> "instantiate_token", c |-> t, init |-> i] : t \in {"bsei", "stsei"},
+                             i \in {<<>>, <<[a |-> U1, x |-> 5]>>, <<[a |-> U1, x |-> 5], [a |-> U1, x |-> 7]>>,
+                                    <<[a |-> U1, x |-> 5], [a |-> "hub", x |-> 2]>>}}
+    [] f = "registry" -> {TxAddValidator(v) : v \in Vals} \cup {TxRemoveValidator(v) : v \in Vals}
+                         \cup {TxRedelegations(U1, v) : v \in Vals}
+                         \cup {[k |-> "set_canredel", v |-> v, b |-> b] : v \in Vals, b \in BOOLEAN}
+    [] f = "pause"    -> {TxPause("t"), TxPause("f"), TxPause("")}
+    [] f = "ext"      -> {[k |-> "set_ext", swap |-> m.swap, oracle |-> m.oracle, price |-> Price] : m \in ExtModes}
+    [] OTHER -> {}
+Txs == UNION {TxsOf(f) : f \in Features}
 
 Next == \E tx \in Txs : IF OnlyOk THEN StepOk(tx) ELSE Step(tx)
 Spec == Init /\ [][Next]_vars
